@@ -44,7 +44,7 @@ def make_case(rng, i):
     for st in sc.steps:
         if st.get("val"):
             for nm, g in sc.spec["guards"].items():
-                if g["kind"] in ("method", "prop") and rng.random() < 0.05:
+                if (g["kind"] == "method" and rng.random() < 0.05) or (g["kind"] == "prop" and rng.random() < 0.12):
                     st["val"][nm] = "raise"
     # pass 1: fault-free, counts the crash points
     run = Run(sc, send_budget=case["send_budget"])
